@@ -249,4 +249,11 @@ def r8_3(ctx: Ctx) -> RuleResult:
     return rr
 
 
-RULES = [r8_1, r8_2, r8_3]
+def r8_4(ctx: Ctx) -> RuleResult:
+    """Sync and async resolvers of the four selectors construct the same matches, the RFC's, on covering small documents (= R1.14)."""
+    from .c01 import r1_14
+
+    return r1_14(ctx, "R8.4")
+
+
+RULES = [r8_1, r8_2, r8_3, r8_4]
